@@ -987,7 +987,7 @@ func writeEvidence(c *Check, tier string, s *Stats, nviol, nknown int, vioSample
 		"seed":        envInt("VERIF_SEED", 0),
 		"level":       "model_checking",
 		"coverage":    cov,
-		"assumptions": c.Assumptions,
+		"assumptions": append([]string{}, c.Assumptions...),
 		"wall_s":      wall.Seconds(),
 		"violations":  nviol,
 	}
